@@ -529,25 +529,25 @@ class Parser(object):
 
         # if the components are siblings (either same parent or top-level)
         if _are_siblings(comp_1, comp_2):
-            # they are both connected on their public_interface
-            # Validation makese sure the public_interface are in/out
-            # and if they are equal it would trigger an error at the connection stage (Target already assigned)
-            if variable_1.public_interface == 'out':
+            # they are both connected on their public_interface: one must be 'out' and the other 'in'
+            if variable_1.public_interface == 'out' and variable_2.public_interface == 'in':
                 return variable_1, variable_2
-            else:
+            elif variable_2.public_interface == 'out' and variable_1.public_interface == 'in':
                 return variable_2, variable_1
         else:
             # determine which component is parent of the other
+            parent_var = child_var = None
             if _parent_of(comp_1, comp_2):
                 parent_var, child_var = variable_1, variable_2
-            else:
+            elif _parent_of(comp_2, comp_1):
                 parent_var, child_var = variable_2, variable_1
 
             # parent/child components are connected using private/public interface, respectively
-            if child_var.public_interface == 'in' and parent_var.private_interface == 'out':
-                return parent_var, child_var
-            elif child_var.public_interface == 'out' and parent_var.private_interface == 'in':
-                return child_var, parent_var
+            if parent_var is not None:
+                if child_var.public_interface == 'in' and parent_var.private_interface == 'out':
+                    return parent_var, child_var
+                elif child_var.public_interface == 'out' and parent_var.private_interface == 'in':
+                    return child_var, parent_var
         raise ValueError('Cannot determine the source & target for connection (%s, %s) - (%s, %s)' %
                          (comp_1, var_1, comp_2, var_2))
 
